@@ -68,8 +68,8 @@ def gen_fn_c04(seed, n):
 
 
 # ---------------- world (Rust generator with feedback from the live contract) ----------------
-def gen_world(exe, backend, seed, histories, length, prefix):
-    rc, out, dt = run([exe, "world", backend, str(seed), str(histories), str(length), prefix], timeout=3000)
+def gen_world(exe, mode, backend, seed, histories, length, prefix):
+    rc, out, dt = run([exe, mode, backend, str(seed), str(histories), str(length), prefix], timeout=3000)
     if rc != 0:
         raise RuntimeError("world generator failed: " + out[-2000:])
     return dt
